@@ -1,6 +1,7 @@
 import Proofs.VecEnvWrap
 import Proofs.VecEnvGenEq
 import Proofs.VecRecvGenEq
+import Proofs.VecRecvStepWait
 
 /-!
 # C12 — the vectorised multi-agent environment equals N independent environments
@@ -520,5 +521,188 @@ example : (step_wait (R := Nat) (K := Nat) (α := Nat) (fun k => k + 100) 3
     some (⟨[some [10, 20], some [11, 21]]⟩, ⟨[some [false, true], some [true, true]]⟩,
           ⟨[some [false, false], some [false, true]]⟩) := by decide
 end recv
+
+/-! ## the generated `step_wait` / `_add_info`: positions come from the loop index (`Proofs/VecRecvStepWait.lean`) -/
+section recv2
+open VecRecvGen
+variable {K : Type}
+
+/-- (iii) rows of the generated `step_wait` come from the loop index, for every number of environments and agents
+    and every list of per-pipe replies (all successful; a failed pipe makes `step_wait` raise — C13): for every
+    agent, each returned array (rewards `r.2.1`, terminations `r.2.2.1`, truncations `r.2.2.2.1`) has one row per
+    pipe; row `i` is what reply `i` holds for that agent — a function of reply `i` alone; and replacing the reply of
+    any other pipe `j ≠ i` leaves row `i` unchanged.  Nothing about the order in which the pipes became ready is an
+    input of the function. -/
+theorem C12_source_translation_recv_step_wait_rows [DecidableEq K] (underscore : K → K) (depth : Nat)
+    (self : VecEnvObj α (StepReply R K × Bool)) (replies : List (StepReply R K))
+    (hp : self.parent_pipes = replies.map (fun m => (⟨some (m, true)⟩ : Pipe (StepReply R K × Bool))))
+    (hn : self.agents.Nodup)
+    (r : ObsOut α × PyDict (List R) × PyDict (List Bool) × PyDict (List Bool) × VVal K)
+    (h : step_wait underscore depth self = some r) (a : Nat) (ha : a ∈ self.agents) :
+    ((rowD r.2.1 a).length = replies.length ∧ (rowD r.2.2.1 a).length = replies.length ∧
+      (rowD r.2.2.2.1 a).length = replies.length) ∧
+    (∀ (i : Nat) (m : StepReply R K), replies[i]? = some m →
+      (rowD r.2.1 a)[i]? = PyDict.get m.1 a ∧ (rowD r.2.2.1 a)[i]? = PyDict.get m.2.1 a ∧
+      (rowD r.2.2.2.1 a)[i]? = PyDict.get m.2.2.1 a) ∧
+    (∀ (j : Nat) (m' : StepReply R K) (self' : VecEnvObj α (StepReply R K × Bool))
+       (r' : ObsOut α × PyDict (List R) × PyDict (List Bool) × PyDict (List Bool) × VVal K),
+      self'.agents = self.agents →
+      self'.parent_pipes = (replies.set j m').map (fun m => (⟨some (m, true)⟩ : Pipe (StepReply R K × Bool))) →
+      step_wait underscore depth self' = some r' →
+      ∀ i, i ≠ j → (rowD r'.2.1 a)[i]? = (rowD r.2.1 a)[i]? ∧ (rowD r'.2.2.1 a)[i]? = (rowD r.2.2.1 a)[i]? ∧
+        (rowD r'.2.2.2.1 a)[i]? = (rowD r.2.2.2.1 a)[i]?) := by
+  obtain ⟨h0, h1, h2⟩ := gen_step_wait_rows underscore depth self replies hp hn r h a ha
+  have l0 := length_of_map_some _ _ _ h0
+  have l1 := length_of_map_some _ _ _ h1
+  have l2 := length_of_map_some _ _ _ h2
+  refine ⟨⟨l0, l1, l2⟩, fun i m hm => ⟨getElem?_of_map_some _ _ _ h0 i m hm, getElem?_of_map_some _ _ _ h1 i m hm,
+    getElem?_of_map_some _ _ _ h2 i m hm⟩, ?_⟩
+  intro j m' self' r' hag hp' h' i hij
+  obtain ⟨g0, g1, g2⟩ := gen_step_wait_rows underscore depth self' _ hp' (hag ▸ hn) r' h' a (hag ▸ ha)
+  have k0 := length_of_map_some _ _ _ g0
+  have k1 := length_of_map_some _ _ _ g1
+  have k2 := length_of_map_some _ _ _ g2
+  simp only [List.length_set] at k0 k1 k2
+  have hset : (replies.set j m')[i]? = replies[i]? := List.getElem?_set_ne (fun e => hij e.symm)
+  cases hm : replies[i]? with
+  | some m =>
+    rw [hm] at hset
+    rw [getElem?_of_map_some _ _ _ g0 i m hset, getElem?_of_map_some _ _ _ g1 i m hset,
+      getElem?_of_map_some _ _ _ g2 i m hset, getElem?_of_map_some _ _ _ h0 i m hm,
+      getElem?_of_map_some _ _ _ h1 i m hm, getElem?_of_map_some _ _ _ h2 i m hm]
+    exact ⟨rfl, rfl, rfl⟩
+  | none =>
+    have hi : replies.length ≤ i := by
+      rcases Nat.lt_or_ge i replies.length with hlt | hge
+      · rw [List.getElem?_eq_getElem hlt] at hm; cases hm
+      · exact hge
+    rw [List.getElem?_eq_none (by omega), List.getElem?_eq_none (l := rowD r.2.1 a) (by omega),
+      List.getElem?_eq_none (l := rowD r'.2.2.1 a) (by omega), List.getElem?_eq_none (l := rowD r.2.2.1 a) (by omega),
+      List.getElem?_eq_none (l := rowD r'.2.2.2.1 a) (by omega), List.getElem?_eq_none (l := rowD r.2.2.2.1 a) (by omega)]
+    exact ⟨rfl, rfl, rfl⟩
+
+
+/-- the hypotheses of (iii) are satisfiable: two pipes, two agents, the run succeeds -/
+example :
+    let self : VecEnvObj Nat (StepReply Nat Nat × Bool) :=
+      { num_envs := 2, agents := [0, 1],
+        parent_pipes := [⟨some ((⟨[some 10, some 11]⟩, ⟨[some false, some true]⟩, ⟨[some false, some false]⟩, .dict []), true)⟩,
+                         ⟨some ((⟨[some 20, some 21]⟩, ⟨[some true, some true]⟩, ⟨[some false, some true]⟩, .dict []), true)⟩],
+        observations := ⟨2, ⟨[]⟩, ⟨[]⟩, [], ⟨[]⟩⟩, copy := true }
+    (step_wait (fun k => k + 100) 3 self).isSome = true ∧ self.agents.Nodup ∧
+    self.parent_pipes = ([(⟨[some 10, some 11]⟩, ⟨[some false, some true]⟩, ⟨[some false, some false]⟩, .dict []),
+      (⟨[some 20, some 21]⟩, ⟨[some true, some true]⟩, ⟨[some false, some true]⟩, .dict [])] :
+        List (StepReply Nat Nat)).map (fun m => (⟨some (m, true)⟩ : Pipe (StepReply Nat Nat × Bool))) :=
+  ⟨by decide, by decide, rfl⟩
+
+/-- (iv) infos of env `i` land under index `i`: folding the generated `_add_info` over the environments' infos in
+    index order (the loop of `reset_wait` / `step_wait`, literally), for every number of environments and all flat
+    (non-nested) info dicts with distinct keys, none of them a `_`-key (`EnvOK`), `_` injective: the fold succeeds,
+    every entry is an array of `num_envs` cells, cell `i` of `infos[k]` is env `i`'s value when env `i` reported
+    `k` and the fill value otherwise, and the mask `infos[_k]` is true exactly at the `i` that reported `k`
+    (`cellD` reads an absent key as fill) -/
+theorem C12_source_translation_recv_add_info_index [DecidableEq K] {ρ : Type} (underscore : K → K) (d : Nat)
+    (self : VecEnvObj α ρ) (hinj : ∀ a b, underscore a = underscore b → a = b)
+    (infos : List (List (K × VecRecvGen.Info K))) (hlen : infos.length ≤ self.num_envs)
+    (hok : ∀ items ∈ infos, EnvOK underscore items) :
+    ∃ vi, (pyEnumerate (infos.map VecRecvGen.Info.dict)).foldlM (fun v3 (v4, v5) => do
+        let v3 := (← add_info underscore (d + 1) self v3 v5 v4)
+        pure v3) (pyEmptyInfos : VVal K) = some vi ∧
+      VWF self.num_envs vi ∧
+      ∀ i k,
+        ((∀ k', underscore k' ≠ k) → cellD vi k i =
+          match (infos[i]?).bind (fun items => assocGet items k) with | some v => .val v | none => .fill) ∧
+        (cellD vi (underscore k) i =
+          match (infos[i]?).bind (fun items => assocGet items k) with
+          | some _ => .val pyTrue | none => .fill) :=
+  gen_add_info_index underscore d self hinj infos hlen hok
+
+/-- (iv) per environment: one call `_add_info(infos, info_i, i)` changes cells of index `i` only, writes env `i`'s
+    value and sets the mask there -/
+theorem C12_source_translation_recv_add_info_env [DecidableEq K] {ρ : Type} (underscore : K → K) (d : Nat)
+    (self : VecEnvObj α ρ) (items : List (K × VecRecvGen.Info K)) (i : Nat)
+    (hi : i < self.num_envs) (hinj : ∀ a b, underscore a = underscore b → a = b)
+    (vi : VVal K) (hwf : VWF self.num_envs vi) (hok : EnvOK underscore items) :
+    ∃ vi', add_info underscore (d + 1) self vi (.dict items) i = some vi' ∧ VWF self.num_envs vi' ∧
+      (∀ k' i', i' ≠ i → cellD vi' k' i' = cellD vi k' i') ∧
+      (∀ k v, assocGet items k = some v → cellD vi' k i = .val v ∧ cellD vi' (underscore k) i = .val pyTrue) :=
+  let ⟨vi', h1, h2, h3, h4, _⟩ := add_info_env underscore d self items i hi hinj vi hwf hok.1 hok.2.1 hok.2.2
+  ⟨vi', h1, h2, h3, h4⟩
+
+/-- (iv) through `reset_wait`: on pipes that all carry a successful reply with a flat info dict, the infos
+    `reset_wait` returns have env `i`'s values in cell `i` and the masks true exactly where reported -/
+theorem C12_source_translation_recv_reset_wait_infos [DecidableEq K] (underscore : K → K) (d : Nat)
+    (self : VecEnvObj α (VecRecvGen.Info K × Bool))
+    (hinj : ∀ a b, underscore a = underscore b → a = b)
+    (infos : List (List (K × VecRecvGen.Info K))) (hlen : infos.length ≤ self.num_envs)
+    (hok : ∀ items ∈ infos, EnvOK underscore items)
+    (hp : self.parent_pipes = (infos.map (fun it => (VecRecvGen.Info.dict it, true))).map
+      (fun m => (⟨some m⟩ : Pipe (VecRecvGen.Info K × Bool))))
+    (r : ObsOut α × VVal K) (h : reset_wait underscore (d + 1) self = some r) :
+    ∀ i k,
+        ((∀ k', underscore k' ≠ k) → cellD r.2 k i =
+          match (infos[i]?).bind (fun items => assocGet items k) with | some v => .val v | none => .fill) ∧
+        (cellD r.2 (underscore k) i =
+          match (infos[i]?).bind (fun items => assocGet items k) with
+          | some _ => .val pyTrue | none => .fill) :=
+  gen_reset_wait_infos underscore d self hinj infos hlen hok hp r h
+
+/-- the hypotheses of (iv) are satisfiable (two envs; env 0 reports key 1, env 1 keys 1 and 2; `_k = k + 100`), and
+    `reset_wait` succeeds on such pipes -/
+example : (∀ items ∈ addInfoExInfos, EnvOK (fun k => k + 100) items) ∧ addInfoExInfos.length ≤ addInfoExSelf.num_envs :=
+  ⟨addInfoExInfos_ok, by decide⟩
+example : (reset_wait (α := Nat) (fun k : Nat => k + 100) 1
+    { num_envs := 2, agents := [], parent_pipes := (addInfoExInfos.map (fun it => (VecRecvGen.Info.dict it, true))).map
+        (fun m => (⟨some m⟩ : Pipe (VecRecvGen.Info Nat × Bool))),
+      observations := ⟨2, ⟨[]⟩, ⟨[]⟩, [], ⟨[]⟩⟩, copy := false }).isSome = true := by decide
+
+end recv2
+
+section recv4
+open VecRecvGen
+variable {α : Type}
+
+/-- (i-c) the Dict branch of the generated `write_to_shared_memory`, for every number of environments `n`, every
+    worker `i < n`, every number of agents with Dict spaces of ANY number of keys and arbitrary member shapes
+    (replaces the two-key `decide` instance): the write succeeds, and member `j` of agent `a`'s shared memory is
+    its old buffer with row `i` = the flattened member observation worker `i` wrote; every other row `j' ≠ i`
+    (the other environments' slices) is what it was -/
+theorem C12_source_translation_recv_write_dict (i n : Nat) (subss : List (List SubSpace))
+    (obs : List (List (NdArr α))) (bufs : List (List (List α))) (hi : i < n)
+    (hA : obs.length = subss.length) (hB : bufs.length = subss.length)
+    (hconf : ∀ (a : Nat) (subs : List SubSpace) (mo : List (NdArr α)) (mb : List (List α)),
+      subss[a]? = some subs → obs[a]? = some mo → bufs[a]? = some mb →
+        mo.length = subs.length ∧ mb.length = subs.length ∧
+        ∀ (j : Nat) (sub : SubSpace) (x : NdArr α) (b : List α), subs[j]? = some sub → mo[j]? = some x →
+          mb[j]? = some b → x.data.length = shapeSize sub.shape ∧ b.length = n * shapeSize sub.shape) :
+    ∃ bufs' : List (List (List α)),
+      write_to_shared_memory i (dictDict obs) (dictDict bufs) (dictSpaces subss) = some (dictDict bufs') ∧
+      ∀ (a : Nat) (subs : List SubSpace) (mo : List (NdArr α)) (mb : List (List α)) (j : Nat) (sub : SubSpace)
+        (x : NdArr α) (b : List α),
+        subss[a]? = some subs → obs[a]? = some mo → bufs[a]? = some mb →
+        subs[j]? = some sub → mo[j]? = some x → mb[j]? = some b →
+        ∃ b', (bufs'[a]?).bind (fun m => m[j]?) = some b' ∧
+          readRow b' (shapeSize sub.shape) i = x.data ∧
+          ∀ j', j' ≠ i → readRow b' (shapeSize sub.shape) j' = readRow b (shapeSize sub.shape) j' := by
+  refine ⟨_, gen_write_dict_eq i n subss obs bufs hi hA hB hconf, ?_⟩
+  intro a subs mo mb j sub x b hs ho hb hsj hx hbj
+  have h1 := gen_write_dict_getElem? i subss obs bufs a
+  simp only [ho, hb, hs, Option.map_some, Option.getD_some] at h1
+  have h2 := memberWrite_getElem? i subs mo mb j
+  simp only [hsj, hx, hbj, Option.map_some, Option.getD_some] at h2
+  obtain ⟨_, _, hc⟩ := hconf a subs mo mb hs ho hb
+  obtain ⟨hxl, hbl⟩ := hc j sub x b hsj hx hbj
+  refine ⟨writeSlice b (i * shapeSize sub.shape) x.data, by rw [h1]; exact h2,
+    readRow_writeSlice_same b n (shapeSize sub.shape) i x.data hbl hi hxl,
+    fun j' hj' => readRow_writeSlice_other b (shapeSize sub.shape) i j' x.data hj' hxl⟩
+
+
+/-- the hypotheses of (i-c) are satisfiable: see the `example` after `memberWrite_getElem?` in
+    `Proofs/VecRecvGenEq.lean` (one agent, members of sizes 2 and 1, two environments), restated here -/
+example : ∃ bufs', write_to_shared_memory 1 (dictDict [[(⟨[2], [7, 8]⟩ : NdArr Nat), ⟨[], [9]⟩]])
+    (dictDict [[[0, 0, 0, 0], [0, 0]]]) (dictSpaces [[⟨[2]⟩, ⟨[]⟩]]) = some (dictDict bufs') ∧
+    bufs' = [[[0, 0, 7, 8], [0, 9]]] := ⟨_, by decide, rfl⟩
+
+end recv4
 
 end VecEnv
